@@ -52,6 +52,20 @@ def meta_cases():
     out.append(('timestamp pins a SHA-256 for snapshot.json that does not match', scenario([base_root()], [c]), lambda r: r['cycles'][0]['ok'], 'meta'))
     c = cyc(3); c['sn_meta'] = {'version': 3, 'pin_hash': True, 'wrong_hash': True}
     out.append(('snapshot pins a SHA-256 for targets.json that does not match', scenario([base_root()], [c]), lambda r: r['cycles'][0]['ok'], 'meta'))
+    # delegated role d (key 4): the snapshot lists one version, the served role file carries another
+    for listed, served, what in ((1, 2, 'newer'), (2, 1, 'older')):
+        c = cyc(3)
+        c['targets'] = dict(c['targets'], delegations=[{'name': 'd', 'keys': [4], 'thr': 1, 'table': [4], 'doc': {'version': served, 'signers': [4], 'ntargets': 1}}])
+        c['sn_meta'] = {'version': 3, 'delegated': {'d': {'version': listed}}}
+        out.append((f'snapshot lists delegated role d at version {listed}, the served d.json is the {what} version {served} (correctly signed)', scenario([base_root()], [c]), lambda r: r['cycles'][0]['ok'], 'meta'))
+    c = cyc(3)
+    c['targets'] = dict(c['targets'], delegations=[{'name': 'd', 'keys': [4], 'thr': 1, 'table': [4], 'doc': {'version': 1, 'signers': [4], 'ntargets': 1}}])
+    c['sn_meta'] = {'version': 3, 'delegated': {'d': {'version': 1}}}
+    out.append(('delegated role d listed and served at the same version', scenario([base_root()], [c]), lambda r: not r['cycles'][0]['ok'], 'meta'))
+    c = cyc(3)
+    c['targets'] = dict(c['targets'], delegations=[{'name': 'd', 'keys': [4], 'thr': 1, 'table': [4], 'doc': {'version': 1, 'signers': [5], 'ntargets': 1}}])
+    c['sn_meta'] = {'version': 3, 'delegated': {'d': {'version': 1}}}
+    out.append(('delegated role d signed by a key its delegation does not list', scenario([base_root()], [c]), lambda r: r['cycles'][0]['ok'], 'meta'))
     c = cyc(3); c['ts_meta'] = {'version': 3, 'pin_len': True, 'len_delta': -10}
     out.append(('timestamp pins a length for snapshot.json that is 10 bytes too short', scenario([base_root()], [c]), lambda r: r['cycles'][0]['ok'], 'meta'))
     return out
